@@ -209,7 +209,17 @@ func ruleR22(c *Ctx) *RuleResult {
 			}
 			switch {
 			case one:
-				if !(len(cs) == 2 && cs[0] == "Add" && (upNames[cs[1]] || upWrapper[cs[1]])) {
+				// the append may have been hoisted in front of both arms as the one loop that appends every value: the
+				// single-value path then leaves that loop (it starts at the loop's cut, whose rounds each Add) and sifts up
+				hoisted := false
+				if len(cs) == 1 && (upNames[cs[0]] || upWrapper[cs[0]]) && g.From != 0 {
+					for _, h := range c.GC(fn).GCs {
+						if h.From == g.From && h.Exit.Op == "goto" && h.Exit.Leaf == itoa(g.From) && containsStr(effCallees(h), "Add") {
+							hoisted = true
+						}
+					}
+				}
+				if !(len(cs) == 2 && cs[0] == "Add" && (upNames[cs[1]] || upWrapper[cs[1]])) && !hoisted {
 					bad = append(bad, "pushing one value must append it and sift up, found: "+strings.Join(cs, ","))
 				} else {
 					single = true
